@@ -219,14 +219,42 @@ namespace
     static_assert(input_buf_size <= std::numeric_limits<decltype(stream.avail_in)>::max());
     static_assert(output_buf_size <= std::numeric_limits<decltype(stream.avail_out)>::max());
 
+    // A gzip file consists of one or more members, and its content is
+    // the concatenation of theirs.  When a member ends we look for
+    // the magic number of another one; anything else following the
+    // last member is ignored (as gzip does).
+    auto another_member_follows = [&stream, &input_buffer, f, &name]() -> bool
+      {
+	if (stream.avail_in < 2)
+	  {
+	    memmove(input_buffer, stream.next_in, stream.avail_in);
+	    errno = 0;
+	    const size_t more = fread(input_buffer + stream.avail_in, 1,
+				      input_buf_size - stream.avail_in, f);
+	    if (ferror(f))
+	      {
+		throw DFS::FileIOError(name, errno);
+	      }
+	    stream.next_in = input_buffer;
+	    stream.avail_in += static_cast<avail_in_type>(more);
+	  }
+	return stream.avail_in >= 2
+	  && stream.next_in[0] == 0x1F && stream.next_in[1] == 0x8B;
+      };
+
     zerr = Z_OK;
+    avail_in_type got = 0;
     while (zerr != Z_STREAM_END)
       {
-	errno = 0;
-	auto got = stream.avail_in = static_cast<avail_in_type>(fread(input_buffer, 1, input_buf_size, f));
-	if (ferror(f))
+	if (stream.avail_in == 0)
 	  {
-	    throw DFS::FileIOError(name, errno);
+	    errno = 0;
+	    got = stream.avail_in = static_cast<avail_in_type>(fread(input_buffer, 1, input_buf_size, f));
+	    if (ferror(f))
+	      {
+		throw DFS::FileIOError(name, errno);
+	      }
+	    stream.next_in = input_buffer;
 	  }
 	// We rely on zlib to detect the end of the input stream.  If
 	// there is no more input here we will pass avail_in=0 to
@@ -237,7 +265,6 @@ namespace
 	// then we might have to recognise the end of the input stream
 	// with physical EOF.   I don't think it's possible to identify
 	// when a foo.Z file has been truncated.
-	stream.next_in = input_buffer;
 	do  // decompress some data from the input buffer.
 	  {
 	    stream.next_out = output_buffer;
@@ -253,8 +280,17 @@ namespace
 		// Want more input data.
 		break;
 	      }
-	    if (zerr != Z_STREAM_END)
-	      check_zlib_error_code(zerr);
+	    if (zerr == Z_STREAM_END)
+	      {
+		if (another_member_follows())
+		  {
+		    check_zlib_error_code(inflateReset(&stream));
+		    got = stream.avail_in;
+		    zerr = Z_OK;
+		  }
+		break;
+	      }
+	    check_zlib_error_code(zerr);
 	  }
 	while (stream.avail_out == 0);
       }
